@@ -1,5 +1,184 @@
-//! Harness binary for property C12 (line protocol; see /verif/vlib/BUILDER_GUIDE.md).
+//! Harness binary for property C12 ("compilation results depend only on the sources").
+//!
+//! ONE invocation = ONE fresh process: fresh `RandomState` keys for every std HashMap/HashSet of
+//! the compiler, the global rayon pool sized by the environment variable RAYON_NUM_THREADS.
+//! stdin : one JSON object per line
+//!   {"sources": [["Mod.Name", "text"], ...],   // in *allocation order* of the module references
+//!    "entry": ["Mod.Name", ...], "std": true, "std_last": false,
+//!    "mir": true,      // also run the staged pipeline and dump MIR before/after optimisation
+//!    "run": true,      // execute the emitted wasm / TS of the first entry point under Node >= 22
+//!    "timeout_ms": 10000}
+//! stdout: one JSON object per line
+//!   {"verdict": "ok"|"errors"|"panic", "diag": rendered diagnostics or panic message,
+//!    "files": [names of emitted files], "ts": emitted TS of entry 0, "wasm_fp": fingerprint,
+//!    "mir0": MIR text before optimisation, "mir1": after, "lir_ts": TS text of the staged run,
+//!    "wasm": {"lines","end"}, "tsrun": {"lines","end"}, "threads": rayon threads in use}
+//! Every program gets its own `Heap`, so nothing depends on earlier lines of the same process.
+use samlang_heap::{Heap, ModuleReference};
+use samverif_harness::exec::{run_compiled, scratch_dir, cleanup_scratch, Compiled};
+use std::collections::HashMap;
+use std::hash::Hasher;
+use std::io::BufRead;
+use std::time::Duration;
+
+fn fingerprint(bytes: &[u8]) -> String {
+  // SipHash-1-3 with the fixed all-zero key: deterministic across processes
+  #[allow(deprecated)]
+  let mut h = std::hash::SipHasher::new();
+  h.write(bytes);
+  format!("{:016x}:{}", h.finish(), bytes.len())
+}
+
+struct Loaded {
+  heap: Heap,
+  handles: HashMap<ModuleReference, String>,
+  entries: Vec<ModuleReference>,
+}
+
+/// Allocates the module references in the order given by the request (that is what "the order in
+/// which modules are enumerated" means for `compile_sources`: the CLI allocates them in directory
+/// enumeration order) and fills the `HashMap` handed to the compiler.
+fn load(v: &serde_json::Value) -> Loaded {
+  let mut heap = Heap::new();
+  let mut handles: HashMap<ModuleReference, String> = HashMap::new();
+  let with_std = v["std"].as_bool().unwrap_or(true);
+  let std_last = v["std_last"].as_bool().unwrap_or(false);
+  if with_std && !std_last {
+    for (m, s) in samlang_parser::builtin_std_raw_sources(&mut heap) {
+      handles.insert(m, s);
+    }
+  }
+  let mut by_name: HashMap<String, ModuleReference> = HashMap::new();
+  for pair in v["sources"].as_array().cloned().unwrap_or_default() {
+    let name = pair[0].as_str().unwrap_or("").to_string();
+    let text = pair[1].as_str().unwrap_or("").to_string();
+    let parts: Vec<String> = name.split('.').map(|s| s.to_string()).collect();
+    let m = heap.alloc_module_reference_from_string_vec(parts);
+    by_name.insert(name, m);
+    handles.insert(m, text);
+  }
+  if with_std && std_last {
+    for (m, s) in samlang_parser::builtin_std_raw_sources(&mut heap) {
+      handles.insert(m, s);
+    }
+  }
+  let entries = v["entry"]
+    .as_array()
+    .map(|a| a.iter().filter_map(|e| e.as_str()).filter_map(|e| by_name.get(e).copied()).collect())
+    .unwrap_or_default();
+  Loaded { heap, handles, entries }
+}
+
+/// The same stages `samlang_compiler::compile_sources` runs (crates/samlang-compiler/src/lib.rs:38-83),
+/// through the crates' public stage functions, so that the intermediate MIR can be dumped.
+fn staged(v: &serde_json::Value) -> Result<(String, String, String), String> {
+  let Loaded { mut heap, handles, entries: _ } = load(v);
+  let heap = &mut heap;
+  let mut error_set = samlang_errors::ErrorSet::new();
+  let mut parsed = HashMap::new();
+  for (m, s) in &handles {
+    parsed.insert(*m, samlang_parser::parse_source_module_from_text(s, *m, heap, &mut error_set));
+  }
+  let checked = samlang_checker::type_check_sources(&parsed, &mut error_set).0;
+  if error_set.has_errors() {
+    return Err(error_set.pretty_print_error_messages(heap, &handles));
+  }
+  let mir0 = samlang_compiler::compile_sources_to_mir(heap, &checked);
+  let mir0_text = mir0.debug_print(heap);
+  let mir1 = samlang_optimization::optimize_sources(
+    heap,
+    mir0,
+    &samlang_optimization::ALL_ENABLED_CONFIGURATION,
+  );
+  let mir1_text = mir1.debug_print(heap);
+  let lir = samlang_compiler::compile_mir_to_lir(heap, mir1);
+  let ts = lir.pretty_print(heap);
+  Ok((mir0_text, mir1_text, ts))
+}
+
+fn one(line: &str, idx: usize) -> serde_json::Value {
+  let v: serde_json::Value = match serde_json::from_str(line) {
+    Ok(v) => v,
+    Err(e) => return serde_json::json!({"verdict": "bad-input", "diag": e.to_string()}),
+  };
+  let want_mir = v["mir"].as_bool().unwrap_or(false);
+  let want_run = v["run"].as_bool().unwrap_or(false);
+  let timeout = Duration::from_millis(v["timeout_ms"].as_u64().unwrap_or(10000));
+  let mut out = serde_json::json!({"threads": rayon::current_num_threads()});
+  // 1. the real entry point
+  let vv = v.clone();
+  let r = std::panic::catch_unwind(move || {
+    let Loaded { mut heap, handles, entries } = load(&vv);
+    let res = samlang_compiler::compile_sources(&mut heap, handles, entries.clone(), false);
+    let names: Vec<String> = entries.iter().map(|m| m.pretty_print(&heap)).collect();
+    (res, names)
+  });
+  let mut compiled: Option<Compiled> = None;
+  match r {
+    Err(e) => {
+      out["verdict"] = "panic".into();
+      out["diag"] = samverif_harness::util::panic_msg(&e).into();
+    }
+    Ok((Err(diag), _)) => {
+      out["verdict"] = "errors".into();
+      out["diag"] = diag.into();
+    }
+    Ok((Ok(res), names)) => {
+      out["verdict"] = "ok".into();
+      out["diag"] = "".into();
+      out["files"] = res.text_code_results.keys().cloned().collect::<Vec<_>>().into();
+      let entry = names.first().cloned().unwrap_or_default();
+      let get = |k: &str| res.text_code_results.get(k).cloned().unwrap_or_default();
+      let c = Compiled {
+        ts: get(&format!("{entry}.ts")),
+        wasm_js: get(&format!("{entry}.wasm.js")),
+        loader: get("__samlang_loader__.js"),
+        wat: get("__all__.wat"),
+        wasm: res.wasm_file,
+      };
+      out["ts"] = c.ts.clone().into();
+      out["wasm_js"] = c.wasm_js.clone().into();
+      out["wasm_fp"] = fingerprint(&c.wasm).into();
+      out["ts_fp"] = fingerprint(c.ts.as_bytes()).into();
+      compiled = Some(c);
+    }
+  }
+  // 2. the staged pipeline for the MIR dumps
+  if want_mir && out["verdict"] == "ok" {
+    let vv = v.clone();
+    match std::panic::catch_unwind(move || staged(&vv)) {
+      Ok(Ok((m0, m1, ts))) => {
+        out["mir0"] = m0.into();
+        out["mir1"] = m1.into();
+        out["lir_ts"] = ts.into();
+      }
+      Ok(Err(diag)) => {
+        out["staged"] = format!("errors:{diag}").into();
+      }
+      Err(e) => {
+        out["staged"] = format!("panic:{}", samverif_harness::util::panic_msg(&e)).into();
+      }
+    }
+  }
+  // 3. behaviour of what this very process emitted
+  if want_run && let Some(c) = compiled {
+    let runs = run_compiled(&c, &scratch_dir("c12", idx), timeout, true);
+    out["wasm"] = serde_json::json!({"lines": runs.wasm.lines, "end": runs.wasm.end});
+    out["tsrun"] = serde_json::json!({"lines": runs.ts.lines, "end": runs.ts.end});
+  }
+  out
+}
+
 fn main() {
-  eprintln!("c12: not implemented yet");
-  std::process::exit(2);
+  std::panic::set_hook(Box::new(|_| {}));
+  let lines: Vec<String> = std::io::stdin()
+    .lock()
+    .lines()
+    .map(|l| l.unwrap())
+    .filter(|l| !l.trim().is_empty())
+    .collect();
+  for (i, line) in lines.iter().enumerate() {
+    println!("{}", one(line, i));
+  }
+  cleanup_scratch("c12");
 }
